@@ -138,7 +138,7 @@ func (e *Engine) thoroughExtras(id string, keys []string) map[string]any {
 	// must-fail corpus
 	var st map[string][]string
 	_ = readJSON(filepath.Join(vr, "selftest.json"), &st)
-	var missed, detected []string
+	var missed, detected, stale []string
 	for _, seed := range st[id] {
 		tmp, err := os.MkdirTemp("", "gvc-selftest-")
 		if err != nil {
@@ -153,7 +153,9 @@ func (e *Engine) thoroughExtras(id string, keys []string) map[string]any {
 		}
 		if !ok {
 			os.RemoveAll(tmp)
-			missed = append(missed, seed+" (patch does not apply)")
+			// the seeded change was written against an older text of the lines it touches (a later fix or
+			// refactoring moved them): it cannot be replayed on this tree; reported, not counted as a miss
+			stale = append(stale, seed)
 			continue
 		}
 		self, _ := os.Executable()
@@ -172,6 +174,7 @@ func (e *Engine) thoroughExtras(id string, keys []string) map[string]any {
 		}
 		os.RemoveAll(tmp)
 	}
+	out["selftest_stale_patch_does_not_apply"] = stale
 	out["selftest_seeded_changes"] = len(st[id])
 	out["selftest_detected"] = detected
 	out["selftest_missed"] = missed
